@@ -60,19 +60,19 @@ theorem mcx_pre2 {cs : List Nat} {t : Nat} {u : Unit} {s s' : CState} (h : (mcx 
 
 theorem xGate_sem2 {Q : FState → Nat → Prop} {w : Nat} {u : Unit} {s s' : CState}
     (h : (xGate w).run s = .ok (u, s')) (ht : ¬ Avail s w) :
-    Appended .X ([] ++ [w]) s s' ∧ Sem2 scope σ0 wo Q (· = w) NoK NoQ s s' :=
+    Appended .X ([] ++ [w]) s s' ∧ Sem2 scope σ0 wo Q (· = w) NoK NoQ s s' ∧ Tgt s' w :=
   gate_sem2 (cs := []) (t := w) h rfl rfl ht (fun _ _ hc => by cases hc)
 
 theorem cx_sem2 {Q : FState → Nat → Prop} {a b : Nat} {u : Unit} {s s' : CState}
     (h : (cx a b).run s = .ok (u, s')) (ht : ¬ Avail s b) (hq : wo = false → Q (cur σ0 s) a) :
-    Appended .CX ([a] ++ [b]) s s' ∧ Sem2 scope σ0 wo Q (· = b) NoK NoQ s s' :=
+    Appended .CX ([a] ++ [b]) s s' ∧ Sem2 scope σ0 wo Q (· = b) NoK NoQ s s' ∧ Tgt s' b :=
   gate_sem2 (cs := [a]) (t := b) h rfl rfl ht (fun hwo c hc => by
     have : c = a := by simpa using hc
     rw [this]; exact hq hwo)
 
 theorem mcx_sem2 {Q : FState → Nat → Prop} {cs : List Nat} {t : Nat} {u : Unit} {s s' : CState}
     (h : (mcx cs t).run s = .ok (u, s')) (ht : ¬ Avail s t) (hq : wo = false → ∀ c ∈ cs, Q (cur σ0 s) c) :
-    Appended (.MCX cs.length) (cs ++ [t]) s s' ∧ Sem2 scope σ0 wo Q (· = t) NoK NoQ s s' :=
+    Appended (.MCX cs.length) (cs ++ [t]) s s' ∧ Sem2 scope σ0 wo Q (· = t) NoK NoQ s s' ∧ Tgt s' t :=
   gate_sem2 (cs := cs) (t := t) h rfl rfl ht hq
 
 /-! ### steps without gates -/
@@ -98,7 +98,8 @@ theorem expqSet_sem2 {Q : FState → Nat → Prop} {e : BExp} {q : Nat} {u : Uni
       (fun m hm => Or.inl (by rw [← hqc]; exact hm)) (fun m hm => by rw [hqc]; exact hm), hcur, hqc⟩
 
 theorem markAll_sem2 {Q : FState → Nat → Prop} {ws : List Nat} {u : Unit} {s s' : CState}
-    (h : (markAll ws).run s = .ok (u, s')) (hp : Pre2 scope ρ σ0 s) :
+    (h : (markAll ws).run s = .ok (u, s')) (hp : Pre2 scope ρ σ0 s)
+    (htgt : wo = false → ∀ m ∈ ws, m ∈ s.qc.anc → Tgt s m) :
     Pre2 scope ρ σ0 s' ∧ Sem2 scope σ0 wo Q NoQ NoK (fun m => m ∈ ws ∧ m ∈ s.qc.anc) s s' ∧
       cur σ0 s' = cur σ0 s ∧ (∀ m ∈ ws, m ∈ s.qc.anc → m ∈ s'.qc.marked) ∧ s'.qc.anc = s.qc.anc ∧
       s'.qc.numQubits = s.qc.numQubits := by
@@ -106,11 +107,15 @@ theorem markAll_sem2 {Q : FState → Nat → Prop} {ws : List Nat} {u : Unit} {s
   have hg : Good s' := (markAll_ok (B := fun _ => False) ws h hp.good).good
   have hcur : cur σ0 s' = cur σ0 s := cur_congr b1
   exact ⟨hp.of_same hg b3 b4 b5 b6 (fun m hm => (b7 m hm).imp id (fun x => x.2)) (fun _ _ => by rw [hcur]),
-    Sem2.of_quiet b1 b2 b3 b4 b5 b6 (fun p hp' => Or.inl ⟨p, by rw [← b0]; exact hp', rfl⟩) b7 b8,
+    Sem2.of_quiet b1 b2 b3 b4 b5 b6 (fun p hp' => Or.inl ⟨p, by rw [← b0]; exact hp', rfl⟩)
+      (fun m hm => (b7 m hm).imp id (fun x => ⟨x, fun hwo => by
+        obtain ⟨g, hg, ht⟩ := htgt hwo m x.1 x.2
+        exact ⟨g, by rw [b2]; exact hg, ht⟩⟩)) b8,
     hcur, b9, b5, b3⟩
 
 theorem markAncilla_sem2 {Q : FState → Nat → Prop} {w : Nat} {u : Unit} {s s' : CState}
-    (h : (markAncilla w).run s = .ok (u, s')) (hp : Pre2 scope ρ σ0 s) :
+    (h : (markAncilla w).run s = .ok (u, s')) (hp : Pre2 scope ρ σ0 s)
+    (htgt : wo = false → w ∈ s.qc.anc → Tgt s w) :
     Pre2 scope ρ σ0 s' ∧ Sem2 scope σ0 wo Q NoQ NoK (fun m => m = w ∧ w ∈ s.qc.anc) s s' ∧
       cur σ0 s' = cur σ0 s ∧ (w ∈ s.qc.anc → w ∈ s'.qc.marked) ∧ s'.qc.anc = s.qc.anc := by
   have h' : (markAll [w]).run s = .ok (u, s') := by
@@ -118,7 +123,9 @@ theorem markAncilla_sem2 {Q : FState → Nat → Prop} {w : Nat} {u : Unit} {s s
     show (markAncilla w >>= fun _ => pure ()).run s = _
     rw [run_bind_ok]
     exact ⟨u, s', h, rfl⟩
-  obtain ⟨p, sem, hc, hm, ha, _⟩ := markAll_sem2 (wo := wo) (Q := Q) h' hp
+  obtain ⟨p, sem, hc, hm, ha, _⟩ := markAll_sem2 (wo := wo) (Q := Q) h' hp (fun hwo m hm ha => by
+    have : m = w := by simpa using hm
+    rw [this] at ha ⊢; exact htgt hwo ha)
   refine ⟨p, sem.mono (fun _ _ h => h) (fun _ h => h) (fun m hm' => ?_), hc, fun hw => hm w (by simp) hw, ha⟩
   exact ⟨by simpa using hm'.1, by have := hm'.1; simp at this; rw [← this]; exact hm'.2⟩
 
@@ -130,7 +137,7 @@ theorem kval_FALSE : kval ρ "FALSE" = false := by simp [kval]
 /-- a new qubit bound to a name that was unbound; `val` is the value the gates that follow give it -/
 theorem addQubit_sem2 {Q : FState → Nat → Prop} {name : String} {a : Nat} {s s' : CState}
     (h : (addQubit name).run s = .ok (a, s')) (hp : Pre2 scope ρ σ0 s)
-    (hnone : dictGet? s.qc.qmap name = none) :
+    (hne : ∀ n q, Known scope n → dictGet? s.qc.qmap n = some q → n ≠ name) :
     a = s.qc.numQubits ∧ Sem2 scope σ0 wo Q NoQ NoK NoQ s s' ∧ cur σ0 s' = cur σ0 s ∧
       s'.qc.numQubits = s.qc.numQubits + 1 ∧ s'.qc.free = s.qc.free ∧ s'.qc.anc = s.qc.anc ∧
       s'.qc.marked = s.qc.marked ∧ s'.qc.qmap = dictSet s.qc.qmap name s.qc.numQubits := by
@@ -142,11 +149,10 @@ theorem addQubit_sem2 {Q : FState → Nat → Prop} {name : String} {a : Nat} {s
     rcases hq with hq | hq
     · exact Or.inl hq
     · exact Or.inr (by simp only at hq ⊢; omega)
-  · intro n q _ hq
+  · intro n q hkn hq
     show dictGet? (dictSet _ _ _) _ = _
-    rw [dictGet?_dictSet_ne]
-    · exact hq
-    · rintro rfl; rw [hnone] at hq; cases hq
+    rw [dictGet?_dictSet_ne (hne n q hkn hq)]
+    exact hq
   · intro n q hq
     have hq' : dictGet? (dictSet s.qc.qmap name s.qc.numQubits) n = some q := hq
     by_cases hne : n = name
@@ -193,7 +199,8 @@ theorem constFalse_sem2 {Q : FState → Nat → Prop} {a : Nat} {s s' : CState}
     have hnone' : dictGet? s1.qc.qmap "FALSE" = none := by simpa using hnone
     obtain ⟨u, s2, hd, hl⟩ := run_bind_ok.mp h
     obtain ⟨i, hadd⟩ := run_discard_ok.mp hd
-    obtain ⟨_, sem, hcur, hn, hf, ha, hm, hqm⟩ := addQubit_sem2 (wo := wo) (Q := Q) hadd hp hnone'
+    obtain ⟨_, sem, hcur, hn, hf, ha, hm, hqm⟩ := addQubit_sem2 (wo := wo) (Q := Q) hadd hp
+      (fun n q _ hq e => by rw [e, hnone'] at hq; cases hq)
     obtain ⟨rfl, hq', _⟩ := lookup_ok hl (addQubit_ok (B := fun _ => False) hadd hp.good (Or.inr (by decide))).1.good
     refine ⟨hp.newConst hg' sem hf ha hm hqm ?_, sem, hq'⟩
     rw [hcur, kval_FALSE]
@@ -214,7 +221,8 @@ theorem constTrue_sem2 {Q : FState → Nat → Prop} {a : Nat} {s s' : CState}
     have hnone' : dictGet? s1.qc.qmap "TRUE" = none := by simpa using hnone
     obtain ⟨u1, s3, hd, h2⟩ := run_bind_ok.mp h
     obtain ⟨i, hadd⟩ := run_discard_ok.mp hd
-    obtain ⟨_, sem1, hcur1, hn1, hf1, ha1, hm1, hqm1⟩ := addQubit_sem2 (wo := wo) (Q := Q) hadd hp hnone'
+    obtain ⟨_, sem1, hcur1, hn1, hf1, ha1, hm1, hqm1⟩ := addQubit_sem2 (wo := wo) (Q := Q) hadd hp
+      (fun n q _ hq e => by rw [e, hnone'] at hq; cases hq)
     have hg3 : Good s3 := (addQubit_ok (B := fun _ => False) hadd hp.good (Or.inr (by decide))).1.good
     obtain ⟨q, s4, hl1, h3⟩ := run_bind_ok.mp h2
     obtain ⟨rfl, hq1, hlt⟩ := lookup_ok hl1 hg3
@@ -226,7 +234,7 @@ theorem constTrue_sem2 {Q : FState → Nat → Prop} {a : Nat} {s s' : CState}
       rintro (h' | h')
       · exact absurd (hp.good.free_lt _ h') (Nat.lt_irrefl _)
       · omega
-    obtain ⟨ax, semx⟩ := xGate_sem2 (scope := scope) (σ0 := σ0) (wo := wo) (Q := Q) hx hnav
+    obtain ⟨ax, semx, _⟩ := xGate_sem2 (scope := scope) (σ0 := σ0) (wo := wo) (Q := Q) hx hnav
     obtain ⟨es5, hq5, _⟩ := lookup_ok hl (xGate_ok (B := fun _ => False) hx hg3 hlt).good
     subst es5
     have sem : Sem2 scope σ0 wo Q NoQ NoK NoQ s1 s' := (sem1.trans' semx).mono (by
@@ -248,8 +256,9 @@ theorem constTrue_sem2 {Q : FState → Nat → Prop} {a : Nat} {s s' : CState}
 
 /-- the qubit returned for an expression compiled without destination: the qubit of a known name, or an
 ancilla taken from the scratch space of the state the compilation started from -/
-def Res (scope : List String) (s s' : CState) (a : Nat) : Prop :=
-  (∃ n, Known scope n ∧ dictGet? s'.qc.qmap n = some a) ∨ (Avail s a ∧ a ∈ s'.qc.anc)
+def Res (scope : List String) (wo : Bool) (s s' : CState) (a : Nat) : Prop :=
+  (∃ n, Known scope n ∧ dictGet? s'.qc.qmap n = some a) ∨
+    (Avail s a ∧ a ∈ s'.qc.anc ∧ (wo = false → Tgt s' a))
 
 /-- semantic specification of `compileExpr e` on the widened classes -/
 def ExprSem2 (scope : List String) (ρ : Env) (σ0 : FState) (wo : Bool) (e : BExp) : Prop :=
@@ -263,9 +272,9 @@ def ExprSem2 (scope : List String) (ρ : Env) (σ0 : FState) (wo : Bool) (e : BE
     Pre2 scope ρ σ0 s' ∧
     Sem2 scope σ0 wo (CtlQ scope ρ s') (fun q => dest = some q) (· ∈ compKeys e)
       (fun m => Avail s m ∧ ¬ Avail s' m ∧ (dest = none → m ≠ a)) s s' ∧
-    (dest = none → Res scope s s' a ∧ ¬ Avail s' a ∧ cur σ0 s' a = e.eval ρ ∧
+    (dest = none → Res scope wo s s' a ∧ ¬ Avail s' a ∧ cur σ0 s' a = e.eval ρ ∧
       (isLeaf e = false → a ∈ s'.qc.anc)) ∧
-    (∀ d, dest = some d → a = d ∧ cur σ0 s' d = Bool.xor (cur σ0 s d) (e.eval ρ))
+    (∀ d, dest = some d → a = d ∧ cur σ0 s' d = Bool.xor (cur σ0 s d) (e.eval ρ) ∧ (wo = false → Tgt s' d))
 
 def ArgsSem2 (scope : List String) (ρ : Env) (σ0 : FState) (wo : Bool) (as : List BExp) : Prop :=
   ∀ {rs : List Nat} {s s' : CState}, (compileArgs as).run s = .ok (rs, s') →
@@ -274,7 +283,7 @@ def ArgsSem2 (scope : List String) (ρ : Env) (σ0 : FState) (wo : Bool) (as : L
     Pre2 scope ρ σ0 s' ∧
     Sem2 scope σ0 wo (CtlQ scope ρ s') NoQ (· ∈ compKeysList as) (fun m => Avail s m ∧ ¬ Avail s' m) s s' ∧
     rs.map (cur σ0 s') = as.map (BExp.eval ρ) ∧
-    (∀ q ∈ rs, Res scope s s' q ∧ ¬ Avail s' q) ∧
+    (∀ q ∈ rs, Res scope wo s s' q ∧ ¬ Avail s' q) ∧
     ((∀ a ∈ as, isLeaf a = false) → ∀ q ∈ rs, q ∈ s'.qc.anc)
 
 def XorSem2 (scope : List String) (ρ : Env) (σ0 : FState) (wo : Bool) (as : List BExp) : Prop :=
@@ -284,21 +293,42 @@ def XorSem2 (scope : List String) (ρ : Env) (σ0 : FState) (wo : Bool) (as : Li
     Priv scope s d →
     a = d ∧ Pre2 scope ρ σ0 s' ∧
     Sem2 scope σ0 wo (CtlQ scope ρ s') (· = d) (· ∈ compKeysList as) (fun m => Avail s m ∧ ¬ Avail s' m) s s' ∧
-      cur σ0 s' d = Bool.xor (cur σ0 s d) (evalXor ρ as)
+      cur σ0 s' d = Bool.xor (cur σ0 s d) (evalXor ρ as) ∧ (wo = false → as ≠ [] → Tgt s' d)
 
-theorem Res.sym_or_anc {s s' : CState} {a : Nat} (hp' : Pre2 scope ρ σ0 s') (h : Res scope s s' a)
+theorem Res.sym_or_anc {s s' : CState} {a : Nat} (hp' : Pre2 scope ρ σ0 s') (h : Res scope wo s s' a)
     (ha : a ∈ s'.qc.anc) : Avail s a := by
   rcases h with ⟨n, hk, hq⟩ | h
   · exact absurd ha (hp'.tbl n a hk hq).2.1
   · exact h.1
 
+theorem Res.tgt_of_anc {s s' : CState} {a : Nat} (hp' : Pre2 scope ρ σ0 s') (h : Res scope wo s s' a)
+    (ha : a ∈ s'.qc.anc) (hwo : wo = false) : Tgt s' a := by
+  rcases h with ⟨n, hk, hq⟩ | h
+  · exact absurd ha (hp'.tbl n a hk hq).2.1
+  · exact h.2.2 hwo
+
+theorem Tgt.appended {cls : GClass} {wires : List Nat} {s s' : CState} {q : Nat}
+    (ha : Appended cls wires s s') (h : Tgt s q) : Tgt s' q := by
+  obtain ⟨g', _, _, _, hc⟩ := ha.gates
+  obtain ⟨g, hg, ht⟩ := h
+  rcases hc with hc | hc
+  · exact ⟨g, by rw [hc]; exact hg, ht⟩
+  · exact ⟨g, by rw [hc]; simp [hg], ht⟩
+
+theorem Res.next {Q : FState → Nat → Prop} {W : Nat → Prop} {K : BExp → Prop} {Mk : Nat → Prop}
+    {s s1 s2 : CState} {a : Nat} (h : Res scope wo s s1 a) (sem : Sem2 scope σ0 wo Q W K Mk s1 s2) :
+    Res scope wo s s2 a := by
+  rcases h with ⟨n, hk, hq⟩ | ⟨h1, h2, h3⟩
+  · exact Or.inl ⟨n, hk, sem.qkeep n a hk hq⟩
+  · exact Or.inr ⟨h1, sem.akeep a h2, fun hwo => (h3 hwo).of_sem sem⟩
+
 /-- the condition on a control that is the result of a compiled argument: it is marked at the end
 (ancilla) or is a known name's qubit with that name's value -/
-theorem ctl_of_res {s s2 t s' : CState} {c : Nat} (hp2 : Pre2 scope ρ σ0 s2) (hres : Res scope s s2 c)
+theorem ctl_of_res {s s2 t s' : CState} {c : Nat} (hp2 : Pre2 scope ρ σ0 s2) (hres : Res scope wo s s2 c)
     (hcur : cur σ0 t c = cur σ0 s2 c)
     (hk : ∀ n q, Known scope n → dictGet? s2.qc.qmap n = some q → dictGet? s'.qc.qmap n = some q)
     (hm : c ∈ s2.qc.anc → c ∈ s'.qc.marked) : CtlQ scope ρ s' (cur σ0 t) c := by
-  rcases hres with ⟨n, hkn, hq⟩ | ⟨_, ha⟩
+  rcases hres with ⟨n, hkn, hq⟩ | ⟨_, ha, _⟩
   · exact Or.inr ⟨n, hkn, hk n c hkn hq, by rw [hcur]; exact (hp2.tbl n c hkn hq).2.2⟩
   · exact Or.inl (hm ha)
 
@@ -341,7 +371,7 @@ not among the argument qubits -/
 theorem dest_sem2 {Q : FState → Nat → Prop} {dest : Option Nat} {erets : List Nat} {d : Nat} {s s2 s3 : CState}
     (hp2 : Pre2 scope ρ σ0 s2) (hd0 : ∀ d, dest = some d → Priv scope s d)
     (hd : ∀ d, dest = some d → Priv scope s2 d)
-    (hb : ∀ q ∈ erets, Res scope s s2 q ∧ ¬ Avail s2 q)
+    (hb : ∀ q ∈ erets, Res scope wo s s2 q ∧ ¬ Avail s2 q)
     (h : (destOr dest).run s2 = .ok (d, s3)) :
     Pre2 scope ρ σ0 s3 ∧ Sem2 scope σ0 wo Q NoQ NoK NoQ s2 s3 ∧ cur σ0 s3 = cur σ0 s2 ∧ d ∉ erets ∧
       Priv scope s3 d ∧
@@ -350,7 +380,7 @@ theorem dest_sem2 {Q : FState → Nat → Prop} {dest : Option Nat} {erets : Lis
   | some d0 =>
     obtain ⟨rfl, rfl⟩ := run_pure_ok.mp h
     refine ⟨hp2, Sem2.refl _, rfl, fun hm => ?_, hd d rfl, Or.inl rfl⟩
-    rcases (hb d hm).1 with ⟨n, hk, hq⟩ | ⟨hav, _⟩
+    rcases (hb d hm).1 with ⟨n, hk, hq⟩ | ⟨hav, _, _⟩
     · exact (hd d rfl).2 n hk hq
     · exact (hd0 d rfl).1 hav
   | none =>
@@ -405,13 +435,13 @@ theorem exprSem2_not {x : BExp} (hx : ∀ n, x = .sym n → n ∈ scope) (ih : E
       obtain ⟨hp4, sem4, hc4⟩ := event_sem2 (wo := wo) (Q := CtlQ scope ρ s') hev hp2
       have hpriv4 : Priv scope s4 a := hpriv.next sem4
       have hp5 := xGate_pre2 hx' hp4 hpriv4
-      obtain ⟨ax, sem5⟩ := xGate_sem2 (scope := scope) (σ0 := σ0) (wo := wo) (Q := CtlQ scope ρ s') hx' hpriv4.1
+      obtain ⟨ax, sem5, tg5⟩ := xGate_sem2 (scope := scope) (σ0 := σ0) (wo := wo) (Q := CtlQ scope ρ s') hx' hpriv4.1
       obtain ⟨hp6, sem6, hc6, hqc6⟩ := expqSet_sem2 (wo := wo) (Q := CtlQ scope ρ s') hset hp5
         (by rw [ax.nq]; exact notAvail_lt hpriv4.1)
       have tail := (sem4.trans' sem5).trans' sem6
       have tot := (sem1.monoQ (CtlQ.of_sem tail)).trans' tail
       have hnav6 : ¬ Avail s' a := fun h' => hnav2 (tail.avail a h')
-      refine ⟨hp6, tot.mono ?_ ?_ ?_, fun _ => ⟨Or.inr ⟨hav0, tail.akeep a hanc⟩, hnav6, ?_,
+      refine ⟨hp6, tot.mono ?_ ?_ ?_, fun _ => ⟨Or.inr ⟨hav0, tail.akeep a hanc, fun _ => tg5.of_sem sem6⟩, hnav6, ?_,
         fun _ => tail.akeep a hanc⟩, fun d hd0 => by cases hd0⟩
       · rintro q hq' (h' | ((h' | h') | h'))
         · exact nomatch h'
@@ -447,9 +477,10 @@ theorem exprSem2_not {x : BExp} (hx : ∀ n, x = .sym n → n ∈ scope) (ih : E
           Pre2 scope ρ σ0 s' ∧
           Sem2 scope σ0 wo (CtlQ scope ρ s') (fun q => dest = some q) (· ∈ compKeys (BExp.not x))
             (fun m => Avail s1 m ∧ ¬ Avail s' m ∧ (dest = none → m ≠ a)) s1 s' ∧
-          (dest = none → Res scope s1 s' a ∧ ¬ Avail s' a ∧ cur σ0 s' a = (BExp.not x).eval ρ ∧
+          (dest = none → Res scope wo s1 s' a ∧ ¬ Avail s' a ∧ cur σ0 s' a = (BExp.not x).eval ρ ∧
             (isLeaf (BExp.not x) = false → a ∈ s'.qc.anc)) ∧
-          (∀ d, dest = some d → a = d ∧ cur σ0 s' d = Bool.xor (cur σ0 s1 d) ((BExp.not x).eval ρ)) := by
+          (∀ d, dest = some d → a = d ∧ cur σ0 s' d = Bool.xor (cur σ0 s1 d) ((BExp.not x).eval ρ) ∧
+            (wo = false → Tgt s' d)) := by
         intro d s4 hdest hrun
         obtain ⟨hp4, semd, hcd, hdn, hpriv4, hdcase⟩ := dest_sem2 (wo := wo) (Q := CtlQ scope ρ s')
           (erets := [eret]) hp2 hd hd2
@@ -465,8 +496,10 @@ theorem exprSem2_not {x : BExp} (hx : ∀ n, x = .sym n → n ∈ scope) (ih : E
         have hpriv1 : Priv scope t1 d := ⟨fun h' => hpriv4.1 ((hav1 d).mp h'), by rw [a1.qmap]; exact hpriv4.2⟩
         have hpt2 := xGate_pre2 hx' hpt1 hpriv1
         have a2 := xGate_run hx'
-        obtain ⟨hpt3, sem3, hc3, hmk3, hanc3⟩ := markAncilla_sem2 (wo := wo) (Q := CtlQ scope ρ s') hmk hpt2
         have hanc2 : t2.qc.anc = s4.qc.anc := a2.anc.trans a1.anc
+        have hres4 : Res scope wo s1 s4 eret := hres.next semd
+        obtain ⟨hpt3, sem3, hc3, hmk3, hanc3⟩ := markAncilla_sem2 (wo := wo) (Q := CtlQ scope ρ s') hmk hpt2
+          (fun hwo ha => ((hres4.tgt_of_anc hp4 (hanc2 ▸ ha) hwo).appended a1).appended a2)
         have hlt3 : d < t3.qc.numQubits := by
           rw [(markAncilla_run hmk).2.1, a2.nq]; exact notAvail_lt hpriv1.1
         obtain ⟨ead, hp', sem4, hc4⟩ : a = d ∧ Pre2 scope ρ σ0 s' ∧
@@ -484,11 +517,12 @@ theorem exprSem2_not {x : BExp} (hx : ∀ n, x = .sym n → n ∈ scope) (ih : E
         have hkq : ∀ n q, Known scope n → dictGet? s3.qc.qmap n = some q → dictGet? s'.qc.qmap n = some q :=
           fun n q hk hq' => sem4.qkeep n q hk (sem3.qkeep n q hk (by
             rw [a2.qmap, a1.qmap]; exact semd.qkeep n q hk hq'))
-        obtain ⟨_, semc⟩ := cx_sem2 (scope := scope) (σ0 := σ0) (wo := wo) (Q := CtlQ scope ρ s') hcx hpriv4.1
+        obtain ⟨_, semc, tgc⟩ := cx_sem2 (scope := scope) (σ0 := σ0) (wo := wo) (Q := CtlQ scope ρ s') hcx hpriv4.1
           (fun _ => ctl_of_res hp2 hres (by rw [hcd]) hkq
             (fun ha => sem4.mkeep _ (hmk3 (by rw [hanc2]; exact semd.akeep _ ha))))
-        obtain ⟨_, semx⟩ := xGate_sem2 (scope := scope) (σ0 := σ0) (wo := wo) (Q := CtlQ scope ρ s') hx' hpriv1.1
+        obtain ⟨_, semx, _⟩ := xGate_sem2 (scope := scope) (σ0 := σ0) (wo := wo) (Q := CtlQ scope ρ s') hx' hpriv1.1
         have tail4 := ((semc.trans' semx).trans' sem3).trans' sem4
+        have tgd' : Tgt s' a := ((tgc.of_sem semx).of_sem sem3).of_sem sem4
         have tail := semd.trans' tail4
         have tot := (sem1.monoQ (CtlQ.of_sem tail)).trans' tail
         have hv2 : cur σ0 t2 a = !(Bool.xor (cur σ0 s4 a) (cur σ0 s4 eret)) := by
@@ -500,10 +534,6 @@ theorem exprSem2_not {x : BExp} (hx : ∀ n, x = .sym n → n ∈ scope) (ih : E
         have hmke : ∀ m, m = eret ∧ eret ∈ t2.qc.anc → Avail s1 m := by
           rintro m ⟨rfl, h2⟩
           rw [hanc2] at h2
-          have hres4 : Res scope s1 s4 m := by
-            rcases hres with ⟨n, hk, hq'⟩ | ⟨h1, h3'⟩
-            · exact Or.inl ⟨n, hk, semd.qkeep n m hk hq'⟩
-            · exact Or.inr ⟨h1, semd.akeep m h3'⟩
           exact hres4.sym_or_anc hp4 h2
         have hne : eret ≠ a := fun e => hdn (by rw [← e]; simp)
         rcases hdcase with hsome | ⟨hnone, hava, hanca, hz⟩
@@ -531,12 +561,12 @@ theorem exprSem2_not {x : BExp} (hx : ∀ n, x = .sym n → n ∈ scope) (ih : E
             · exact ⟨hmke m h', h'.1 ▸ hnave', fun hn => by cases hn⟩
             · exact h'.elim
           · cases hd'
-            refine ⟨rfl, ?_⟩
+            refine ⟨rfl, ?_, fun _ => tgd'⟩
             rw [hvs', sem1.frame a (fun h' => by cases h') (Or.inl (hd a rfl).1), hval, bnot_xor]
             simp [BExp.eval]
         · subst hnone
           have hav1 : Avail s1 a := sem1.avail a hava
-          refine ⟨hp', tot.mono ?_ ?_ ?_, fun _ => ⟨Or.inr ⟨hav1, tail4.akeep a hanca⟩, hnava', ?_,
+          refine ⟨hp', tot.mono ?_ ?_ ?_, fun _ => ⟨Or.inr ⟨hav1, tail4.akeep a hanca, fun _ => tgd'⟩, hnava', ?_,
             fun _ => tail4.akeep a hanca⟩, fun d' hd' => by cases hd'⟩
           · rintro q hq' (h' | (h' | (((h' | h') | h') | h')))
             · exact nomatch h'
